@@ -16,6 +16,7 @@
    No proofs in this file. *)
 From Coq Require Import NArith ZArith List Bool.
 Import ListNotations.
+Require Import PV.Annot.Forms PV.Gen.Annot.
 
 Inductive aexpr :=
 | EClass (c : N)                          (* int, str, A, ...: a plain class *)
@@ -39,24 +40,6 @@ Inductive aexpr :=
 | EFinal (e : aexpr)                      (* Final[e] *)
 | EClassVar (e : aexpr)                   (* ClassVar[e] *)
 | EStr (e : aexpr).                       (* "e": a string / forward reference *)
-
-Inductive tval :=
-| TAny
-| TErr                                    (* Any[error] together with an invalid_annotation diagnostic *)
-| TCrash                                  (* the evaluator raises (internal_error) *)
-| TNever
-| TNone
-| TTyped (c : N)
-| TGeneric (c : N) (args : list tval)
-| TSeq (ms : list (bool * tval))          (* SequenceValue(tuple, members) *)
-| TUnion (has_none : bool) (ms : list tval)
-| TLit (l : Z)
-| TSub (v : tval)                         (* SubclassValue *)
-| TCallAny (r : tval)
-| TCall (ps : list tval) (r : tval)
-| TAnnot (v : tval) (m : N).
-
-Definition tuple_c : N := 1000%N.
 
 (* unite_values, up to representation *)
 Definition has_none_v (v : tval) : bool :=
@@ -88,7 +71,6 @@ Fixpoint has_tag (crash : bool) (v : tval) : bool :=
   end.
 
 (* SubclassValue.make *)
-Definition type_c : N := 8%N.
 Definition mk_sub1 (v : tval) : tval :=
   match v with
   | TAny => TTyped type_c               (* Type[Any] is plain type *)
@@ -105,19 +87,41 @@ Definition mk_sub (v : tval) : tval :=
 
 Definition single (vs : list tval) : list (bool * tval) := map (fun v => (false, v)) vs.
 
-(* _Visitor walks the whole expression before anything is interpreted: a starred
-   element anywhere outside a string raises NotImplementedError *)
-Fixpoint star_outside_str (e : aexpr) : bool :=
-  match e with
-  | EStarTuple _ _ => true
-  | EStr _ => false
-  | EOptional e | ETupleVar e | EType e | ECallableAny e | EAnnotated e _ | EFinal e | EClassVar e => star_outside_str e
-  | EUnion es | EGeneric _ es | ETupleFixed es => existsb star_outside_str es
-  | EOr a b => star_outside_str a || star_outside_str b
-  | EUnpackTuple pre s => existsb star_outside_str pre || star_outside_str s
-  | ECallable ps r => existsb star_outside_str ps || star_outside_str r
-  | _ => false
+(* ---- interpreting one dispatch branch --------------------------------------- *)
+(* args: the converted arguments; for a Callable the return type comes first;
+   lits/nested: the literals of a Literal form and whether some were written as
+   an inner Literal[...]; c: the class of a generic; m: Annotated metadata;
+   ellipsis: Callable[..., R] *)
+Definition interp (a : option action) (args : list tval) (lits : list Z) (nested : bool)
+                  (c m : N) (ellipsis : bool) : tval :=
+  match a with
+  | Some ActUniteMembers => unite args
+  | Some (ActUniteLiterals flat) => if nested && negb flat then TErr else unite (map TLit lits)
+  | Some ActGenericTuple1 => TGeneric tuple_c args
+  | Some ActSeqEmpty => TSeq []
+  | Some ActSeqMembers | Some ActSeqMembersStarLost => TSeq (single args)
+  | Some (ActOptional none_first) => if none_first then unite (TNone :: args) else unite (args ++ [TNone])
+  | Some ActSubclassMake => mk_sub (hd TErr args)
+  | Some ActAnnotated => TAnnot (hd TErr args) m
+  | Some ActTransparent => hd TErr args
+  | Some ActCallable => if ellipsis then TCallAny (hd TErr args) else TCall (tl args) (hd TErr args)
+  | Some ActGenericOf => TGeneric c args
+  | Some ActUnpacked | None => TErr          (* Unpack outside a tuple / unrecognised form *)
   end.
+
+(* a tuple whose last member is Unpack[tuple[s, ...]] (written with Unpack or with a star) *)
+Definition seq_unpack (t : list (form * action)) (star : bool) (star_desugared : bool)
+                      (pre : list tval) (s : tval) : tval :=
+  match act t FTupleFixed, act t FUnpack with
+  | Some ActSeqMembers, Some ActUnpacked =>
+      if star && negb star_desugared then TErr else TSeq (single pre ++ [(true, s)])
+  | Some ActSeqMembersStarLost, Some ActUnpacked =>
+      if star then TSeq (single pre ++ [(false, TGeneric tuple_c [s])]) else TSeq (single pre ++ [(true, s)])
+  | _, _ => TErr
+  end.
+
+Definition ast_do (f : form) := interp (act ast_table f).
+Definition rt_do (f : form) := interp (act rt_table f).
 
 (* ---- AST / string route ------------------------------------------------- *)
 Fixpoint route_ast (e : aexpr) : tval :=
@@ -125,65 +129,62 @@ Fixpoint route_ast (e : aexpr) : tval :=
   | EClass c => TTyped c
   | ENone => TNone
   | EAny => TAny
-  | EOptional e => unite [TNone; route_ast e]
-  | EUnion es => unite (map route_ast es)
-  | EOr a b => unite [route_ast a; route_ast b]
-  | EGeneric c es => TGeneric c (map route_ast es)
-  | ETupleVar e => TGeneric tuple_c [route_ast e]
-  | ETupleFixed es => TSeq (single (map route_ast es))
-  | ETupleEmpty => TSeq []
-  | EStarTuple _ _ => TCrash                       (* _Visitor has no visit_Starred *)
-  | EUnpackTuple pre s => TSeq (single (map route_ast pre) ++ [(true, route_ast s)])
-  | ELiteral ls => unite (map TLit ls)
-  | ELitNested _ _ => TErr                         (* "Arguments to Literal[] must be literals" *)
-  | EType e => mk_sub (route_ast e)
-  | ECallableAny r => TCallAny (route_ast r)
-  | ECallable ps r => TCall (map route_ast ps) (route_ast r)
-  | EAnnotated e m => TAnnot (route_ast e) m
-  | EFinal e => if star_outside_str e then TCrash else TErr   (* "Unrecognized subscripted annotation" *)
-  | EClassVar e => if star_outside_str e then TCrash else TErr
+  | EOptional e => ast_do FOptional [route_ast e] [] false 0 0 false
+  | EUnion es => ast_do FUnion (map route_ast es) [] false 0 0 false
+  | EOr a b => ast_do FUnion [route_ast a; route_ast b] [] false 0 0 false   (* visit_BinOp: Union *)
+  | EGeneric c es => ast_do FGenericClass (map route_ast es) [] false c 0 false
+  | ETupleVar e => ast_do FTupleVar [route_ast e] [] false 0 0 false
+  | ETupleFixed es => ast_do FTupleFixed (map route_ast es) [] false 0 0 false
+  | ETupleEmpty => ast_do FTupleEmpty [] [] false 0 0 false
+  | EStarTuple pre s => seq_unpack ast_table true ast_visit_starred (map route_ast pre) (route_ast s)
+  | EUnpackTuple pre s => seq_unpack ast_table false true (map route_ast pre) (route_ast s)
+  | ELiteral ls => ast_do FLiteral [] ls false 0 0 false
+  | ELitNested inner ls => ast_do FLiteral [] (inner ++ ls) true 0 0 false
+  | EType e => ast_do FType [route_ast e] [] false 0 0 false
+  | ECallableAny r => ast_do FCallable [route_ast r] [] false 0 0 true
+  | ECallable ps r => ast_do FCallable (route_ast r :: map route_ast ps) [] false 0 0 false
+  | EAnnotated e m => ast_do FAnnotated [route_ast e] [] false 0 m false
+  | EFinal e => ast_do FFinal [route_ast e] [] false 0 0 false
+  | EClassVar e => ast_do FClassVar [route_ast e] [] false 0 0 false
   | EStr e => route_ast e                          (* _eval_forward_ref: parse, then this route *)
   end.
 
-(* ---- runtime-object route and the visitor route --------------------------- *)
-(* Both convert the object that evaluating the expression produces; they differ
-   only in what happens to a starred member (`star`). *)
-Fixpoint route_rt (star : list tval -> tval -> tval) (e : aexpr) : tval :=
+(* ---- runtime-object route ------------------------------------------------ *)
+(* typing itself turns Optional[X] into Union[X, None], X | Y into a union object and
+   flattens nested Literal; the starred alias reaches the tuple branch as an argument *)
+Fixpoint route_runtime (e : aexpr) : tval :=
   match e with
   | EClass c => TTyped c
   | ENone => TNone
   | EAny => TAny
-  | EOptional e => unite [route_rt star e; TNone]  (* typing: Optional[X] = Union[X, None] *)
-  | EUnion es => unite (map (route_rt star) es)
-  | EOr a b => unite [route_rt star a; route_rt star b]
-  | EGeneric c es => TGeneric c (map (route_rt star) es)
-  | ETupleVar e => TGeneric tuple_c [route_rt star e]
-  | ETupleFixed es => TSeq (single (map (route_rt star) es))
-  | ETupleEmpty => TSeq []
-  | EStarTuple pre s => star (map (route_rt star) pre) (route_rt star s)
-  | EUnpackTuple pre s => TSeq (single (map (route_rt star) pre) ++ [(true, route_rt star s)])
-  | ELiteral ls => unite (map TLit ls)
-  | ELitNested inner ls => unite (map TLit (inner ++ ls))   (* typing flattens nested Literal *)
-  | EType e => mk_sub (route_rt star e)
-  | ECallableAny r => TCallAny (route_rt star r)
-  | ECallable ps r => TCall (map (route_rt star) ps) (route_rt star r)
-  | EAnnotated e m => TAnnot (route_rt star e) m
-  | EFinal e => route_rt star e
-  | EClassVar e => route_rt star e
+  | EOptional e => rt_do FUnion [route_runtime e; TNone] [] false 0 0 false
+  | EUnion es => rt_do FUnion (map route_runtime es) [] false 0 0 false
+  | EOr a b => rt_do FUnion [route_runtime a; route_runtime b] [] false 0 0 false
+  | EGeneric c es => rt_do FGenericClass (map route_runtime es) [] false c 0 false
+  | ETupleVar e => rt_do FTupleVar [route_runtime e] [] false 0 0 false
+  | ETupleFixed es => rt_do FTupleFixed (map route_runtime es) [] false 0 0 false
+  | ETupleEmpty => rt_do FTupleEmpty [] [] false 0 0 false
+  | EStarTuple pre s => seq_unpack rt_table true true (map route_runtime pre) (route_runtime s)
+  | EUnpackTuple pre s => seq_unpack rt_table false true (map route_runtime pre) (route_runtime s)
+  | ELiteral ls => rt_do FLiteral [] ls false 0 0 false
+  | ELitNested inner ls => rt_do FLiteral [] (inner ++ ls) false 0 0 false
+  | EType e => rt_do FType [route_runtime e] [] false 0 0 false
+  | ECallableAny r => rt_do FCallable [route_runtime r] [] false 0 0 true
+  | ECallable ps r => rt_do FCallable (route_runtime r :: map route_runtime ps) [] false 0 0 false
+  | EAnnotated e m => rt_do FAnnotated [route_runtime e] [] false 0 m false
+  | EFinal e => rt_do FFinal [route_runtime e] [] false 0 0 false
+  | EClassVar e => rt_do FClassVar [route_runtime e] [] false 0 0 false
   | EStr e => route_ast e                          (* a str object goes through _eval_forward_ref *)
   end.
 
-(* _value_of_origin_args: get_origin of the starred alias is tuple, the star is lost *)
-Definition star_runtime (pre : list tval) (s : tval) : tval :=
-  TSeq (single pre ++ [(false, TGeneric tuple_c [s])]).
-(* value_of_annotation: the starred subscript is not understood; the result is tuple[Any] *)
-Definition star_visitor (pre : list tval) (s : tval) : tval :=
-  if existsb (has_tag true) pre || has_tag true s then TCrash else TSeq [(false, TAny)].
+(* ---- annotation written in the checked module ---------------------------- *)
+(* value_of_annotation evaluates the expression with the checker's own visitor
+   (a starred known alias inside a tuple display is replaced by its unpacked
+   form), obtains the runtime object and converts that *)
+Definition route_visitor (e : aexpr) : tval := route_runtime e.
 
-Definition route_runtime : aexpr -> tval := route_rt star_runtime.
-Definition route_visitor : aexpr -> tval := route_rt star_visitor.
-
-(* ---- guard: the three classes on which the routes are known to differ ---- *)
+(* which expressions contain a starred tuple member (kept for the histogram of
+   the harness and for the statement about the unrepaired code) *)
 Fixpoint has_star_unpack (e : aexpr) : bool :=
   match e with
   | EStarTuple _ _ => true
@@ -194,28 +195,3 @@ Fixpoint has_star_unpack (e : aexpr) : bool :=
   | ECallable ps r => existsb has_star_unpack ps || has_star_unpack r
   | _ => false
   end.
-
-Fixpoint has_nested_literal (e : aexpr) : bool :=
-  match e with
-  | ELitNested _ _ => true
-  | EOptional e | ETupleVar e | EType e | ECallableAny e | EAnnotated e _ | EFinal e | EClassVar e | EStr e => has_nested_literal e
-  | EUnion es | EGeneric _ es | ETupleFixed es => existsb has_nested_literal es
-  | EOr a b => has_nested_literal a || has_nested_literal b
-  | EStarTuple pre s | EUnpackTuple pre s => existsb has_nested_literal pre || has_nested_literal s
-  | ECallable ps r => existsb has_nested_literal ps || has_nested_literal r
-  | _ => false
-  end.
-
-Fixpoint has_final_classvar (e : aexpr) : bool :=
-  match e with
-  | EFinal _ | EClassVar _ => true
-  | EOptional e | ETupleVar e | EType e | ECallableAny e | EAnnotated e _ | EStr e => has_final_classvar e
-  | EUnion es | EGeneric _ es | ETupleFixed es => existsb has_final_classvar es
-  | EOr a b => has_final_classvar a || has_final_classvar b
-  | EStarTuple pre s | EUnpackTuple pre s => existsb has_final_classvar pre || has_final_classvar s
-  | ECallable ps r => existsb has_final_classvar ps || has_final_classvar r
-  | _ => false
-  end.
-
-Definition routes_guard (e : aexpr) : bool :=
-  negb (has_star_unpack e) && negb (has_nested_literal e) && negb (has_final_classvar e).
